@@ -98,6 +98,7 @@ let finish r ~id ~tier ~debug ~has_rel (w : M.sc_world) (threads : M.sc_call lis
        "loaders", JL (List.map (fun (l : M.sc_loader) -> Ob [ "fs", JB l.M.ld_fs;
             "dirs", JL (List.map (fun d -> JL (List.map (fun (k, f) -> Ob [ "n", hx (sb k); "s", hx (pr_src f.M.fl_src) ]) d)) l.M.ld_dirs) ]) loaders);
        "reg", JL (List.map (fun (n, s) -> Ob [ "n", hx (sb n); "s", hx (pr_src s) ]) w.M.w_reg);
+       "regt", JL (List.map (fun (n, s) -> Ob [ "n", hx (sb n); "s", hx (pr_src s) ]) w.M.w_regt);
        "threads", JL (List.map2 (fun cs es -> JL (List.map2 jcall cs es)) threads results);
        "ncalls", JI ncalls; "nontrivial", JB (has_rel && nthreads >= 2); "model_schedule_dependent", JB !sched_dep;
        "reps", JI (if tier = "thorough" then 6 else 3) ]
@@ -199,7 +200,17 @@ let gen_workload r ~id ~tier =
     let key = "reg/" ^ fresh "r" ^ ".twig" in
     regs := (bs key, mk (body [ "reg" ] (of_kind "leaf" @ of_kind "l1") 3)) :: !regs
   done;
-  let w0 = { M.w_loaders = loaders; w_chain = (nl > 0 && rint r 4 = 0); w_reg = List.rev !regs;
+  (* RegisterTemplate(name, ParseTemplate(source)): templates without a name of their own, under names in several
+     directories; what they write relative resolves as in a template without a name, whatever else is being rendered *)
+  let regts = ref [] in
+  if rint r 2 = 0 then
+    for _ = 1 to 2 + rint r 3 do
+      let d = pick r [| [ "nl" ]; [ "nl"; "sub" ]; [ "a" ]; [ "c" ]; [ "zz" ] |] in
+      let key = join (d @ [ fresh "q" ^ ".twig" ]) in
+      if not (List.exists (fun dd -> dd.key = key) defs_l) then
+        regts := (bs key, mk (body [] (of_kind "leaf" @ of_kind "l1") 3)) :: !regts
+    done;
+  let w0 = { M.w_loaders = loaders; w_chain = (nl > 0 && rint r 4 = 0); w_reg = List.rev !regs; w_regt = List.rev !regts;
              w_types = Array.to_list (Array.map (List.map bs) type_fields);
              w_cache = true; w_auto = false } in
   (* one registration of a name the loaders have, with the source they have *)
@@ -214,10 +225,11 @@ let gen_workload r ~id ~tier =
   let debug = (mode = 3) in
   (* ---- calls ---- *)
   let nthreads = if tier = "thorough" then 8 + rint r 25 else 8 + rint r 25 in
-  let callnames = Array.of_list (List.map (fun d -> d.key) defs_l @ List.map (fun (n, _) -> sb n) w.M.w_reg @ [ "nothere.twig" ]) in
+  let callnames = Array.of_list (List.map (fun d -> d.key) defs_l @ List.map (fun (n, _) -> sb n) (w.M.w_reg @ w.M.w_regt) @ [ "nothere.twig" ]) in
   let weight d = match d.kind with "l2" | "gchild" | "child" -> 5 | "l1" | "base" -> 3 | "bad" -> 1 | _ -> 1 in
   let wnames = List.concat_map (fun d -> List.init (weight d) (fun _ -> d.key)) defs_l in
-  let wnames = Array.of_list (wnames @ List.map (fun (n, _) -> sb n) w.M.w_reg) in
+  let wnames = Array.of_list (wnames @ List.map (fun (n, _) -> sb n) w.M.w_reg
+                              @ List.concat_map (fun (n, _) -> [ sb n; sb n; sb n; sb n ]) w.M.w_regt) in
   let vars t c =
     let u_ty = rint r 2 in
     [ (bs "x", M.ScVStr (bs (pick r [| "x1"; "x-2"; "xx" |])));
@@ -250,8 +262,8 @@ let gen_workload r ~id ~tier =
 (* ---- fixed workloads: one per repaired race, so that none can come back unnoticed ---- *)
 let tpl items = M.ScSrcTpl { M.tp_extends = None; tp_items = items; tp_macros = [] }
 let file s = { M.fl_src = s; fl_mtime = M.Z0 }
-let world ?(chain = false) ?(cache = true) ?(auto = false) loaders =
-  { M.w_loaders = loaders; w_chain = chain; w_reg = []; w_types = Array.to_list (Array.map (List.map bs) type_fields);
+let world ?(chain = false) ?(cache = true) ?(auto = false) ?(regt = []) loaders =
+  { M.w_loaders = loaders; w_chain = chain; w_reg = []; w_regt = regt; w_types = Array.to_list (Array.map (List.map bs) type_fields);
     w_cache = cache; w_auto = auto }
 let txt s = M.ScItFlat (M.ScFText (bs s))
 let mkvar t c = [ (bs "x", M.ScVStr (bs "x1")); (bs "mk", M.ScVStr (bs (Printf.sprintf "g%dc%d" t c))) ]
@@ -264,6 +276,20 @@ let fixed_relative r ~id ~tier ~fs ~cache =
         (bs (d ^ "/part.twig"), file (tpl [ txt ("part-of-" ^ d) ])) ]) dirs in
   let w = world ~cache [ { M.ld_fs = fs; ld_dirs = [ files ] } ] in
   let threads = List.init 16 (fun t -> List.init 20 (fun c ->
+      M.ScCRender (c mod 2 = 0, bs (List.nth dirs ((t + c) mod 4) ^ "/main.twig"), mkvar t c))) in
+  finish r ~id ~tier ~debug:false ~has_rel:true w threads
+
+(* templates registered without a name of their own (RegisterTemplate of a ParseTemplate result) under names in
+   different directories, each including ./part.twig: a template without a name resolves ./part.twig from the root,
+   whatever name it is rendered under and whatever other goroutines render at that moment *)
+let fixed_nameless r ~id ~tier ~fs =
+  let dirs = [ "a"; "c"; "d"; "e/f" ] in
+  let files = (bs "part.twig", file (tpl [ txt "part-of-root" ])) ::
+              List.map (fun d -> (bs (d ^ "/part.twig"), file (tpl [ txt ("part-of-" ^ d) ]))) dirs in
+  let regt = List.map (fun d -> (bs (d ^ "/main.twig"),
+                                 tpl [ txt ("[" ^ d ^ ":"); M.ScItInclude (bs "./part.twig"); M.ScItFlat (M.ScFVar (bs "mk")); txt "]" ])) dirs in
+  let w = world ~regt [ { M.ld_fs = fs; ld_dirs = [ files ] } ] in
+  let threads = List.init 16 (fun t -> List.init 24 (fun c ->
       M.ScCRender (c mod 2 = 0, bs (List.nth dirs ((t + c) mod 4) ^ "/main.twig"), mkvar t c))) in
   finish r ~id ~tier ~debug:false ~has_rel:true w threads
 
@@ -336,7 +362,7 @@ let fixed_rich r ~id ~tier ~mode =
       | _ -> if c mod 2 = 0 then Ob ([ "op", JS "load"; "n", hx n ] @ base) else Ob ([ "op", JS "register"; "n", hx n; "s", hx (List.assoc n rich_set) ] @ base))) in
   Ob [ "k", JS "wl"; "id", JI id; "cache", JB (mode <> 1); "auto", JB (mode = 2); "debug", JB (mode = 3); "chain", JB false;
        "loaders", JL [ Ob [ "fs", JB true; "dirs", JL [ JL (List.map (fun (n, s) -> Ob [ "n", hx n; "s", hx s ]) rich_set) ] ] ];
-       "reg", JL []; "threads", JL (List.map (fun l -> JL l) threads); "ncalls", JI (nthreads * 14); "nontrivial", JB true;
+       "reg", JL []; "regt", JL []; "threads", JL (List.map (fun l -> JL l) threads); "ncalls", JI (nthreads * 14); "nontrivial", JB true;
        "reps", JI (if tier = "thorough" then 6 else 3) ]
 
 let run ~seed ~tier oc =
@@ -345,7 +371,9 @@ let run ~seed ~tier oc =
   let fixed = [ (fun id -> fixed_relative r ~id ~tier ~fs:true ~cache:true); (fun id -> fixed_relative r ~id ~tier ~fs:false ~cache:false);
                 (fun id -> fixed_memo r ~id ~tier ~auto:false); (fun id -> fixed_memo r ~id ~tier ~auto:true);
                 (fun id -> fixed_parse r ~id ~tier); (fun id -> fixed_intern r ~id ~tier);
-                (fun id -> fixed_rich r ~id ~tier ~mode:0); (fun id -> fixed_rich r ~id ~tier ~mode:(1 + rint r 3)) ] in
+                (fun id -> fixed_rich r ~id ~tier ~mode:0); (fun id -> fixed_rich r ~id ~tier ~mode:(1 + rint r 3));
+                (fun id -> fixed_nameless r ~id ~tier ~fs:true); (fun id -> fixed_nameless r ~id ~tier ~fs:false) ] in
   List.iteri (fun i f -> emit oc (f (i + 1))) fixed;
   let n = if tier = "thorough" then 240 else 24 in
-  for id = 9 to 8 + n do emit oc (gen_workload r ~id ~tier) done
+  let nf = List.length fixed in
+  for id = nf + 1 to nf + n do emit oc (gen_workload r ~id ~tier) done
